@@ -666,14 +666,14 @@ func runC09(c *Ctx) {
 			fn := m("Reset")
 			zero := 0
 			for _, f := range []*types.Var{si, ri, wi} {
-				for _, a := range storesTo(fn, f) {
+				for _, a := range storesDeep(fn, f) {
 					if isConstInt(a.Val, 0) {
 						zero++
 					}
 				}
 			}
 			resl := false
-			for _, a := range storesTo(fn, dataF) {
+			for _, a := range storesDeep(fn, dataF) {
 				if sl, ok := stripConv(a.Val).(*ssa.Slice); ok && loadOfField(sl.X, dataF) && sl.High != nil && isConstInt(sl.High, 0) {
 					resl = true
 				}
@@ -725,10 +725,10 @@ func runC09(c *Ctx) {
 		for _, name := range []string{"Write", "WriteByte", "WriteString"} {
 			fn := m(name)
 			var appended ssa.Value
-			for _, a := range storesTo(fn, dataF) {
-				if call, ok := strip(a.Val).(*ssa.Call); ok {
+			for _, a := range deepStoresTo(fn, dataF) {
+				if call, ok := strip(a.Store.Val).(*ssa.Call); ok {
 					if b, ok := call.Call.Value.(*ssa.Builtin); ok && b.Name() == "append" && len(call.Call.Args) == 2 {
-						appended = call.Call.Args[1]
+						appended = a.translate(call.Call.Args[1])
 					}
 				}
 			}
